@@ -93,6 +93,32 @@ func c18(r *core.Report, p *core.Prog, thorough bool) {
 		r.Unresolved("C18.guards", "zcnsc:mint handler")
 		return
 	}
+	// signers are told apart by the raw id string (getUniqueSignatures); the same raw id must
+	// select the authorizer whose key verifies the signature: no folding / trimming of ids
+	// anywhere in the mint call tree inside the contract
+	r.Rule("C18.signer-identity", "no case-folding or trimming (strings.ToLower/ToUpper/Title/TrimSpace/Trim*/Fields/EqualFold) is applied to a value in the mint call tree of the bridge contract: distinct id strings must stay distinct authorizers, or one authorizer counts several times toward the quorum")
+	{
+		nonInjective := map[string]bool{"strings.ToLower": true, "strings.ToUpper": true, "strings.Title": true, "strings.ToTitle": true, "strings.TrimSpace": true, "strings.Trim": true,
+			"strings.TrimLeft": true, "strings.TrimRight": true, "strings.TrimFunc": true, "strings.TrimPrefix": true, "strings.TrimSuffix": true, "strings.Fields": true, "strings.EqualFold": true}
+		cl := StaticClosure(mints, func(f *ssa.Function) bool { return f.Pkg == nil || f.Pkg.Pkg.Path() != mints[0].Pkg.Pkg.Path() })
+		nCalls := 0
+		for _, f := range cl {
+			for _, b := range f.Blocks {
+				for _, in := range b.Instrs {
+					c, ok := in.(*ssa.Call)
+					if !ok {
+						continue
+					}
+					nCalls++
+					if nonInjective[core.CalleeName(c.Common())] {
+						r.Fail("C18.signer-identity", f.Name()+":"+core.CalleeName(c.Common()), p.Pos(c.Pos()), "an identifier is normalised on the way to a lookup while signers are de-duplicated by the raw string")
+					}
+				}
+			}
+		}
+		r.Pass("C18.signer-identity", "mint-call-tree", p.Pos(mints[0].Pos()), fmt.Sprintf("%d functions, %d calls scanned", len(cl), nCalls))
+		r.Floor("C18.signer-identity", "functions in the mint call tree", len(cl), 5)
+	}
 	// the handler may delegate to an internal mint(trans, input, ctx, seed)
 	mint := mints[0]
 	if len(TransferSites([]*ssa.Function{mint})) == 0 {
